@@ -1,4 +1,5 @@
 //! Shared pieces of the correspondence harness: PRNG, hex, output files.
+pub mod prog;
 use std::fmt::Write as _;
 use std::fs;
 use std::io::Write as _;
